@@ -183,6 +183,43 @@ fn run(ctx: &RunCtx) -> Report {
             }
         }
     }
+    // 1b. "responders are added to the table": every node that answered one of a joiner's requests in time is in
+    //     the joiner's tables after the bootstrap (private plans of up to 20 servers: no bucket fills up, no
+    //     IP is shared, nobody re-keys)
+    if report.violation.is_none() && !large && !slow_links && !plan.public && net.servers.len() <= 20 {
+        let mut checked = 0u64;
+        'hosts: for h in &all {
+            let Some(snap) = sim.snapshot(*h) else { continue };
+            let known: BTreeSet<SocketAddrV4> = [&snap.routing_table, &snap.signed_peers_routing_table].iter().flat_map(|t| t.buckets.iter().flat_map(|(_, b)| b.iter().map(|n| n.address))).collect();
+            let me = sim.node_addr(*h);
+            let answered: Vec<(SocketAddrV4, u64)> = sim.with_trace(|tr| {
+                let mut reqs: std::collections::BTreeMap<(SocketAddrV4, u32), u64> = Default::default();
+                let mut out = vec![];
+                for d in tr.iter() {
+                    let Some(k) = Krpc::parse(&d.bytes) else { continue };
+                    if d.from_host == Some(*h) && k.is_query() && d.dup_of.is_none() {
+                        reqs.insert((d.dst, k.tid_u32().unwrap_or(0)), d.t_send);
+                    } else if d.dst == me && k.is_response() && d.fate == Fate::Delivered && !k.ro {
+                        if let Some(sent) = reqs.get(&(d.src, k.tid_u32().unwrap_or(0))) {
+                            let at = d.t_deliver.unwrap_or(u64::MAX);
+                            if at.saturating_sub(*sent) < 450 * MS {
+                                out.push((d.src, at));
+                            }
+                        }
+                    }
+                }
+                out
+            });
+            for (a, at) in answered {
+                checked += 1;
+                if a != me && !known.contains(&a) {
+                    report.violate("bootstrap", "responder-not-in-the-table", format!("{} answered a request of joiner {} in time (at t={:.3}s) but is in neither of its routing tables after the bootstrap; {what}", a, me, at as f64 / SEC as f64));
+                    break 'hosts;
+                }
+            }
+        }
+        report.probe("in_time_responders_checked_against_the_table", checked);
+    }
     // 2. the first node learned the servers that bootstrapped from it
     if report.violation.is_none() && !large {
         if let Some(s) = sim.snapshot(net.first) {
